@@ -170,7 +170,12 @@ theorem regItem_below (fx : Facts) (ha : fx.allocAtEnd = true) (st : Nat) (p : T
     refine ⟨fun x v hl => SymOk_mono (Nat.le_succ _) (Nat.le_refl _) v (h.1 x v hl), ?_⟩
     intro k f hl
     split at hl
-    · exact Nat.lt_succ_of_lt (h.2 k f hl)
+    · split at hl
+      · rw [lookup_cons] at hl
+        split at hl
+        · cases hl; exact Nat.lt_succ_self _
+        · exact Nat.lt_succ_of_lt (h.2 k f hl)
+      · exact Nat.lt_succ_of_lt (h.2 k f hl)
     · cases hk : lookup k p.1.meths with
       | some w =>
         rw [lookup_append_some k w _ _ hk] at hl
@@ -466,7 +471,7 @@ theorem compileItem_closed {F nv : Nat} {T : Tab} (hT : TabBelow F nv T) (nf : N
         cases v <;> simp [hl, hb] at h
         subst h
         simp only [SymOk] at hv
-        simp [closedA, hv.1, resolveB_closed hT b b' hb]
+        simp [closedA, hv.1, resolveB_closed hT b b' hb, hnf (by rfl)]
   | func f b =>
     simp only [compileItem, Option.map_eq_some_iff] at h
     obtain ⟨b', hb, rfl⟩ := h
